@@ -67,6 +67,7 @@ class MxEndpoint {
     int complete_event = -1;
     bool got_error = false;               // an API call returned < 0 (D1)
     int first_error = 0;
+    int first_error_alive = 0;            // first negative return while the session was not yet dead by another cause
     bool got_fatal_alert = false;         // D2
     bool got_close_notify = false;
     bool request_close = false;           // SentData returned REQUEST_CLOSE (D3)
@@ -76,6 +77,10 @@ class MxEndpoint {
     // cert callback log
     int cb_calls = 0; int cb_last_alert = -1; int cb_last_ret = 0; std::vector<int> cb_alerts;
     Fingerprint fp;
+    // replay log (C18): exact inbound bytes, outbound bytes and application actions keyed to the inbound position
+    struct AppAction { size_t pos; int kind; Bytes payload; bool writebuf; };   // kind 0 send, 1 close
+    Bytes in_log, out_log; std::vector<AppAction> actions; bool keep_log = false;
+    std::vector<size_t> barriers;   // inbound positions at which output was handed to the transport: later inbound bytes may causally depend on it
     std::function<void(MxEndpoint &, const char *what)> on_api;   // invariant hook, called after every API return
 
     ~MxEndpoint() { destroy(); }
